@@ -222,13 +222,18 @@ func conv(d drive.TypeDesc, v model.Value) verdict {
 		if v.Kind == model.Struct {
 			out := model.StructV()
 			r := verdict{}
-			for _, fd := range flatFields(d) {
+			ffs := flatFields(d)
+			exact := map[string]bool{}
+			for _, fd := range ffs {
+				exact[ionFieldName(fd)] = true
+			}
+			for _, fd := range ffs {
 				name := ionFieldName(fd)
 				val := zeroModel(fd.T)
 				for _, f := range v.Fields {
 					if !f.Name.Known || f.Name.Text != name {
-						if f.Name.Known && strings.EqualFold(f.Name.Text, name) {
-							return anything // case-insensitive fallback: undocumented
+						if f.Name.Known && !exact[f.Name.Text] && strings.EqualFold(f.Name.Text, name) {
+							return anything // case-insensitive fallback (no exact match): undocumented
 						}
 						continue
 					}
@@ -436,7 +441,9 @@ func c17Exemplars() []model.Value {
 		model.StructV(model.Field{Name: model.S("F"), Val: model.IntV(bigOf("4294967296"))}), model.StructV(model.Field{Name: model.S("k"), Val: model.ListV(one)}),
 		model.StructV(model.Field{Name: model.S("F"), Val: model.NullOf(model.String)}),
 		model.StructV(model.Field{Name: model.S("P0"), Val: model.Int64V(7)}, model.Field{Name: model.S("P1"), Val: model.StrV("s")}, model.Field{Name: model.S("Q1"), Val: model.Int64V(9)}),
-		model.StructV(model.Field{Name: model.S("P0"), Val: model.Int64V(7)}), model.StructV(model.Field{Name: model.S("F"), Val: model.StructV(model.Field{Name: model.S("F"), Val: one})}))
+		model.StructV(model.Field{Name: model.S("P0"), Val: model.Int64V(7)}),
+		model.StructV(model.Field{Name: model.S("ID"), Val: model.Int64V(7)}), model.StructV(model.Field{Name: model.S("Id"), Val: model.Int64V(1)}, model.Field{Name: model.S("ID"), Val: model.Int64V(2)}),
+		model.StructV(model.Field{Name: model.S("KEY"), Val: model.StrV("u")}, model.Field{Name: model.S("Key"), Val: model.StrV("m")}), model.StructV(model.Field{Name: model.S("Key"), Val: model.StrV("m")}), model.StructV(model.Field{Name: model.S("F"), Val: model.StructV(model.Field{Name: model.S("F"), Val: one})}))
 	return out
 }
 
@@ -468,6 +475,9 @@ func c17Targets() []drive.TypeDesc {
 		chain = drive.TypeDesc{K: "struct", Fields: []drive.FieldDesc{{Name: "Emb" + string(rune('0'+l)), T: chain, Embedded: true}, {Name: "Q" + string(rune('0'+l)), T: td("int")}}}
 	}
 	out = append(out, chain)
+	// two fields whose names differ only by case: an exact match must win
+	out = append(out, drive.TypeDesc{K: "struct", Fields: []drive.FieldDesc{{Name: "Id", T: td("int")}, {Name: "ID", T: td("int")}}},
+		drive.TypeDesc{K: "struct", Fields: []drive.FieldDesc{{Name: "A", Tag: "key", T: td("string")}, {Name: "B", Tag: "Key", T: td("string")}, {Name: "C", Tag: "KEY", T: td("string")}}})
 	three := drive.TypeDesc{K: "struct", Fields: []drive.FieldDesc{{Name: "X", T: td("int")}, {Name: "Y", T: td("int")}, ann}}
 	out = append(out, wrap("slice", three, 0))
 	out = append(out, wrap("slice", wrap("slice", td("int"), 0), 0), wrap("map", wrap("slice", td("int"), 0), 0),
